@@ -25,7 +25,12 @@ open Parsley Parsley.Obj Parsley.Spelling Parsley.DocSpec Driver Driver.C03
            cross-reference stream dictionaries declare (never consulted: the history loads exactly, which is acceptable); 5 every choice random; 6 the
            declaring revision is NOT on the /Prev chain (skipped over: loads as a plain history); 7 one hybrid section
            declares in its trailer / its /XRefStm stream's dictionary / both, anywhere in the history.
-           Oracle: DocSpec.acceptable (refused, or exactly `resolve` of the chain) - Driver/C03.lean judgeEnc. -/
+           Oracle: DocSpec.acceptable (refused, or exactly `resolve` of the chain) - Driver/C03.lean judgeEnc.
+      garh <hex of the history> <seed> <variant> <lk> <ll> <gk> <gl> <tk> <tl> [o]   SIZE SWEEP of the bytes around a
+           well-chained history (family variant%8 in 0-3, or 7 = one /Prev skipping revisions): filler of kind lk / gk / tk
+           and length ll / gl / tl before the header, in the gap before the LAST `startxref`, after the LAST %%EOF
+           (format, kinds and expansion: Driver/C03.lean `garbFile`; the lengths: `sweepSizes`).  Every /Prev and every
+           offset is relative to the header, so nothing changes: oracle `resolve` of the chain + reported header offset. -/
 
 /-- the revisions of a history, all /Prev automatic -/
 def genRevs (seed variant maxRevs : Nat) : List Rev × Bytes × Bool × Rng :=
@@ -301,6 +306,13 @@ def encMaxRevs (variant : Nat) : Nat := if variant ≥ 1000 then 5 else 3
 
 def maxRevsOf (variant : Nat) : Nat := if variant ≥ 1000 then 7 else 3
 
+/-- the history of a `garh` case, written without anything around it -/
+def garhBase (seed variant : Nat) : Scene :=
+  { genHist seed variant (maxRevsOf variant) with garbage := [] }
+
+/-- families of well-chained histories for the sweep -/
+def garhVariants : List Nat := [0, 1, 2, 3, 7]
+
 def judge (case impl : String) : String :=
   match judgeCommon case impl with
   | some v => v
@@ -326,6 +338,9 @@ def judge (case impl : String) : String :=
     | ["lenh", hex, seed, variant] =>
       let v := judgeLen (genLenH seed.toNat! variant.toNat!) hex impl
       if v.startsWith "bad wrong-load" then "bad wrong-merge " ++ " ".intercalate ((v.splitOn " ").drop 2) else v
+    | "garh" :: hex :: seed :: variant :: lk :: ll :: _ :: _ :: tk :: _ =>
+      let v := judgeGarb (garhBase seed.toNat! variant.toNat!) hex lk.toNat! ll.toNat! tk.toNat! impl
+      if v.startsWith "bad wrong-load" then "bad wrong-merge " ++ " ".intercalate ((v.splitOn " ").drop 2) else v
     | "long" :: hex :: seed :: len :: _ =>
       if impl.trimAscii.toString == "nomodel" then "skip" else      -- (the model's side of an oracle-only case)
       let v := judgeScene (genLong seed.toNat! len.toNat!) hex impl
@@ -343,6 +358,15 @@ def gen (seed n : Nat) (tier : String) (emit : String → IO Unit) : IO Unit := 
     let (bytes, _, _, _) := render sc
     -- the byte-list model needs time quadratic in the file size: above `modelMax` sections the case is oracle-only
     emit s!"long {hexOfBytes bytes} {seed} {len}{if len > modelMax tier then " o" else ""}"
+  -- size sweep of leading garbage / gap before the last startxref / tail after the last %%EOF around histories: one
+  -- history per size (family rotating with the size index), the three places one at a time and all at once
+  for rep in List.range (if tier == "thorough" then 3 else 1) do
+    for c in garbSweep (seed + 5 * rep) tier [0] do
+      let i := c.seed % 1009
+      let v := garhVariants[(i + seed + rep) % garhVariants.length]?.getD 0
+      let c := { c with variant := v }
+      let (doc, _, _, _) := render (garhBase c.seed c.variant)
+      emit (garbLine "garh" doc c)
   for k in List.range n do
     let s := seed * 100003 + k
     let v := k % 8 + (if tier == "thorough" && k % 3 == 0 then 1000 else 0)
@@ -377,6 +401,7 @@ def nontrivial (line : String) : Bool :=
   | "lenc" :: _ => true
   | "lenh" :: _ => true
   | "long" :: _ => true
+  | "garh" :: _ => true
   | "ench" :: _ => true
   | "enc" :: _ => true
   | "decl" :: _ => true
